@@ -305,7 +305,7 @@ func (s *Sched) Woke() { s.Yield() }
 func (s *Sched) SelectPref(n int) int { return s.env.C.Int("select", n) }
 
 func (s *Sched) RandRead(b []byte) (int, error) {
-	copy(b, s.env.C.Bytes("rand", len(b)))
+	copy(b, s.env.randBytes(len(b)))
 	return len(b), nil
 }
 
